@@ -442,16 +442,21 @@ int64_t evaluate_array_ref(
             }
             // int配列など整数型の場合
             else {
+                // N-D arrays keep their cells in multidim_array_values
+                const std::vector<int64_t> &cells =
+                    (target_array->is_multidimensional &&
+                     !target_array->multidim_array_values.empty())
+                        ? target_array->multidim_array_values
+                        : target_array->array_values;
                 // 範囲チェック
                 if (effective_index < 0 ||
-                    effective_index >= static_cast<int64_t>(
-                                           target_array->array_values.size())) {
+                    effective_index >= static_cast<int64_t>(cells.size())) {
                     throw std::runtime_error(
                         "Pointer array index out of bounds");
                 }
 
                 // ポインタ配列の場合、メタデータビットを保持
-                int64_t value = target_array->array_values[effective_index];
+                int64_t value = cells[effective_index];
                 if (target_array->is_pointer && target_array->is_array) {
                     // 既にメタデータポインタの場合はそのまま返す
                     if (value & (1LL << 63)) {
